@@ -50,8 +50,8 @@ var canaries = map[string][]canary{}
 // after the property's own analysis.
 var propertyCanaries = map[string][]string{
 	"C01": {"BETA.noread", "FLAG.neginc", "STRIDE.index", "STRIDE.len", "STRIDE.start", "STRIDE.rowoffset", "STRIDE.extent", "FLAG.trans", "TWIN.generated", "ASM.units", "ASM.lost"},
-	"C02": {"OKFLOW.loopstatus", "FACTKIND.pair", "ARGS.order", "ARGS.lencheck", "ARGS.query", "LOOPIDX.unused", "OKFLOW.report", "STRIDE.vecinc", "WORKSIZE.min", "WORKSIZE.querylen"},
-	"C03": {"GUARD.operand", "FLAG.uplomap", "STRIDE.veclda", "FACTKIND.pair", "LOOPIDX.origin", "ARGS.order", "ARGS.lencheck", "ARGS.query", "LOOPIDX.unused", "OKFLOW.report", "STRIDE.workld", "STRIDE.worknext", "WORKSIZE.min"},
+	"C02": {"WORKSIZE.fallback", "OKFLOW.loopstatus", "FACTKIND.pair", "ARGS.order", "ARGS.lencheck", "ARGS.query", "LOOPIDX.unused", "OKFLOW.report", "STRIDE.vecinc", "WORKSIZE.min", "WORKSIZE.querylen"},
+	"C03": {"WORKSIZE.fallback", "GUARD.operand", "FLAG.uplomap", "STRIDE.veclda", "FACTKIND.pair", "LOOPIDX.origin", "ARGS.order", "ARGS.lencheck", "ARGS.query", "LOOPIDX.unused", "OKFLOW.report", "STRIDE.workld", "STRIDE.worknext", "WORKSIZE.min"},
 	"C04": {"STRIDE.contig", "TWIN.bounds", "NILRECV"},
 	"C05": {"OVERLAP.extent", "OVERLAP.guard", "MODSET.mat", "OVERLAP.symmetric", "TWIN.shadow"},
 	"C06": {"OKFLOW.condpath", "FACT.condafter", "FACTKIND.pair", "OKFLOW.use", "OKFLOW.cond", "OKFLOW.report", "FACT.normorder", "FACT.state", "FACT.condunit", "NILRECV"},
@@ -99,6 +99,8 @@ func init() {
 		{"FACT.condafter", "mat/lq.go", "\tlapack64.Gelqf(lq.lq.mat, lq.tau, work, len(work))\n\tputFloat64s(work)\n\tlq.updateCond(norm)", "\tlq.updateCond(norm)\n\tlapack64.Gelqf(lq.lq.mat, lq.tau, work, len(work))\n\tputFloat64s(work)", func() *core.Result { return factx.Run(def) }},
 		{"OPT.limits", "optimize/minimize.go", "stats.GradEvaluations >= settings.GradEvaluations", "stats.FuncEvaluations >= settings.GradEvaluations", func() *core.Result { return initx.RunLimits(def) }},
 		{"GOPROTO.semcap", "blas/gonum/dgemm.go", "workerLimit := make(chan struct{}, runtime.GOMAXPROCS(0))", "workerLimit := make(chan struct{}, runtime.GOMAXPROCS(0)-1)", func() *core.Result { return goproto.Run(def, core.Pkgs("./blas/gonum")) }},
+		{"WORKSIZE.fallback", "lapack/gonum/dgeqp3.go", "nb = (lwork - 2*sn) / (sn + 1)", "nb = (lwork - 2*sn) / sn", func() *core.Result { return worksize.RunFallback(def, core.Pkgs("./lapack/gonum")) }},
+		{"WORKSIZE.fallback", "lapack/gonum/dgehrd.go", "nb = (lwork - tsize) / n", "nb = lwork / n", func() *core.Result { return worksize.RunFallback(def, core.Pkgs("./lapack/gonum")) }},
 		{"WORKSIZE.min", "lapack/gonum/dgels.go", "wsize := max(1, mn+max(mn, nrhs)*nb)", "wsize := max(1, mn+mn*nb)", wsz},
 		{"WORKSIZE.querylen", "lapack/gonum/dormqr.go", "case lwork < max(1, nw) && lwork != -1:\n\t\tpanic(badLWork)", "case lwork < max(1, nw) && lwork != -1:\n\t\tpanic(badLWork)\n\tcase len(tau) != k:\n\t\tpanic(badLenTau)", wsz},
 		{"WORKSIZE.min", "lapack/gonum/dsyev.go", "lworkopt := max(1, (nb+2)*n)", "lworkopt := max(1, (nb+1)*n)", wsz},
